@@ -46,6 +46,12 @@ pub struct SeqCtx {
     pub searches_seen: u64,
     pub last_flag: usize,
     pub autoplay_horizon: u64,
+    /// poll count at the moment each `info depth` line was printed (iteration boundaries of the driver)
+    pub iter_marks: Vec<u64>,
+    /// indices of the polls made on entering a node one ply below the root, and of the first three polls two plies
+    /// below it after each of those (the nodes an interrupted iteration shares with the stored principal variation)
+    pub shallow_polls: Vec<u64>,
+    pub shallow_since: u8,
 }
 
 impl SeqCtx {
@@ -71,6 +77,9 @@ impl SeqCtx {
             searches_seen: 0,
             last_flag: 0,
             autoplay_horizon: u64::MAX,
+            iter_marks: Vec::new(),
+            shallow_polls: Vec::new(),
+            shallow_since: 0,
         }
     }
     pub fn with_input(lines: &[&str]) -> SeqCtx {
@@ -132,6 +141,10 @@ pub fn emit(part: bool, text: String) {
         } else {
             let mut l = std::mem::take(&mut c.partial);
             l.push_str(&text);
+            if l.starts_with("info depth") {
+                let p = c.polls;
+                c.iter_marks.push(p);
+            }
             // a single println! may contain embedded newlines (Display for Game)
             c.transcript.push(l);
         }
@@ -383,6 +396,17 @@ pub fn on_node(flag: &AtomicBool, table: &mut crate::search::TranspositionTable,
             }
             if real as u32 > c.max_real_depth {
                 c.max_real_depth = real as u32;
+            }
+            if c.shallow_polls.len() < 20_000 {
+                if real <= 1 {
+                    let p = c.polls;
+                    c.shallow_polls.push(p);
+                    c.shallow_since = 0;
+                } else if real == 2 && c.shallow_since < 3 {
+                    let p = c.polls;
+                    c.shallow_polls.push(p);
+                    c.shallow_since += 1;
+                }
             }
             if c.stopped {
                 c.polls_after_stop += 1;
